@@ -927,25 +927,59 @@ func AccessOf(x interface{}, table string, write bool, pos string) {
 }
 
 type fieldUse struct {
-	task            *Task
-	wrote           bool
-	unlocked        string // position of an access made without the lock it needs ("" = none)
-	unlockedIsWrite bool
+	task   *Task
+	reads  []lockSetAt // the distinct sets of locks this task held at its reads of the field
+	writes []lockSetAt // ... and, counting only locks held in write mode, at its writes
 }
 
-// accessField is the probe for a plain field of a scope (the external lookup) that is read on every lookup and
-// written rarely. Read-shared state in Eraser's sense: any number of tasks may read it without a lock as long as
-// nobody writes it. A violation is two accesses by DIFFERENT tasks of one run, at least one of them a write, at
-// least one of them made without the scope's lock in the mode it needs (the simulation serialises everything, so
-// "could these two race on real threads" is decided from the locks held, not from what happened to interleave).
+type lockSetAt struct {
+	locks []*RWMutex
+	pos   string
+}
+
+func sameSet(a, b []*RWMutex) bool {
+	if len(a) != len(b) {
+		return false
+	}
+	for i := range a {
+		if a[i] != b[i] {
+			return false
+		}
+	}
+	return true
+}
+
+func disjoint(a, b []*RWMutex) bool {
+	for _, x := range a {
+		for _, y := range b {
+			if x == y {
+				return false
+			}
+		}
+	}
+	return true
+}
+
+// accessField is the probe for the scope's external lookup, a plain field that is read on every lookup and written
+// rarely. Read-shared state in Eraser's sense: any number of tasks may read it without a lock as long as nobody
+// writes it. A violation is two accesses by DIFFERENT tasks of one run, at least one of them a write, that have no
+// lock in common (a write counts only the locks it holds in write mode). The simulation serialises everything, so
+// "could these two race on real threads" is decided from the locks held, not from what happened to interleave; and
+// it is decided pair by pair, from the locks actually held, not from an assumed "the scope's lock": a scope with
+// one lock per table whose writer takes both and whose readers take either is correctly synchronised.
 func accessField(m *RWMutex, field string, write bool, pos string) {
 	s, t := current()
 	if t == nil {
 		return
 	}
 	s.mu.Lock()
-	held := m.heldBy(t, write)
 	s.Counters["access_field"]++
+	var held []*RWMutex
+	for _, h := range t.held {
+		if !write || h.write {
+			held = append(held, h.m)
+		}
+	}
 	var me *fieldUse
 	for _, u := range m.fieldUses {
 		if u.task == t {
@@ -956,29 +990,38 @@ func accessField(m *RWMutex, field string, write bool, pos string) {
 		me = &fieldUse{task: t}
 		m.fieldUses = append(m.fieldUses, me)
 	}
+	mine := &me.reads
 	if write {
-		me.wrote = true
+		mine = &me.writes
 	}
-	if !held && (me.unlocked == "" || write) {
-		me.unlocked, me.unlockedIsWrite = pos, write
+	known := false
+	for _, ls := range *mine {
+		if sameSet(ls.locks, held) {
+			known = true
+		}
 	}
+	if !known {
+		*mine = append(*mine, lockSetAt{held, pos})
+	}
+	mode := map[bool]string{false: "read", true: "write"}
 	detail := ""
 	for _, u := range m.fieldUses {
-		if u.task == t {
+		if u.task == t || detail != "" {
 			continue
 		}
-		switch {
-		case write && !held:
-			detail = fmt.Sprintf("write of %s without the scope's write lock at %s while task %s also uses the field", field, pos, u.task.ID)
-		case write && u.unlocked != "":
-			detail = fmt.Sprintf("write of %s at %s; task %s accesses the field without the scope's lock at %s", field, pos, u.task.ID, u.unlocked)
-		case !write && !held && u.wrote:
-			detail = fmt.Sprintf("read of %s without the scope's lock at %s; task %s writes the field", field, pos, u.task.ID)
-		case !write && held && u.unlocked != "" && u.unlockedIsWrite:
-			detail = fmt.Sprintf("read of %s at %s; task %s writes the field without the scope's write lock at %s", field, pos, u.task.ID, u.unlocked)
+		for _, w := range u.writes {
+			if disjoint(held, w.locks) {
+				detail = fmt.Sprintf("%s of %s at %s and write of %s by task %s at %s have no lock in common (a write counts the locks it holds in write mode)", mode[write], field, pos, field, u.task.ID, w.pos)
+				break
+			}
 		}
-		if detail != "" {
-			break
+		if detail == "" && write {
+			for _, r := range u.reads {
+				if disjoint(held, r.locks) {
+					detail = fmt.Sprintf("write of %s at %s and read of %s by task %s at %s have no lock in common (a write counts the locks it holds in write mode)", field, pos, field, u.task.ID, r.pos)
+					break
+				}
+			}
 		}
 	}
 	flagged := m.fieldFlagged
